@@ -120,7 +120,7 @@ func LoadConfig(args []string, cwd string) (*ServerConfig, error) {
 	f.String("repdataroot", k.String("repdataroot"), `Representation metadata root directory. "+" copies vodroot value. "-" disables usage.`)
 	f.Bool("writerepdata", k.Bool("writerepdata"), "Write representation metadata if not present")
 	f.String("whitelistblocks", k.String("whitelistblocks"), "comma-separated list of CIDR blocks that are not rate limited")
-	f.Int("timeoutS", k.Int("timeouts"), "timeout for all requests (seconds)")
+	f.Int("timeoutS", k.Int("timeoutS"), "timeout for all requests (seconds)")
 	f.Int("maxrequests", k.Int("maxrequests"), "max nr of request per IP address per 24 hours")
 	f.String("reqlimitlog", k.String("reqlimitlog"), "path to request limit log file (only written if maxrequests > 0)")
 	f.Int("reqlimitint", k.Int("reqlimitint"), "interval for request limit i seconds (only used if maxrequests > 0)")
@@ -158,10 +158,19 @@ func LoadConfig(args []string, cwd string) (*ServerConfig, error) {
 		}
 	}
 
-	// Overload with environment variables
+	// Overload with environment variables. The lower-cased variable name is mapped back to
+	// the canonical (possibly mixed-case) key, e.g. LIVESIM_TIMEOUTS -> timeoutS
+	canonical := make(map[string]string)
+	for _, key := range k.Keys() {
+		canonical[strings.ToLower(key)] = key
+	}
 	err = k.Load(env.Provider("LIVESIM_", ".", func(s string) string {
-		return strings.ReplaceAll(strings.ToLower(
+		name := strings.ReplaceAll(strings.ToLower(
 			strings.TrimPrefix(s, "LIVESIM_")), "_", ".")
+		if key, ok := canonical[name]; ok {
+			return key
+		}
+		return name
 	}), nil)
 	if err != nil {
 		return nil, err
